@@ -77,6 +77,14 @@ var vc15Succ = []string{
 	"a2 = \"outer\"\nuse(\"lib.p\")\nadd_key(outer_a2, a2)\nfor x in [1, 2] {\n use(\"lib.p\")\n}\nadd_key(k_leak)\n",
 	// 7 collection literals modified in place (a literal's value must be built afresh on every run)
 	"l = [1, 2, 3]\nl[0] = l[0] + 10\nm = {\"k\": 1}\nm[\"k\"] = m[\"k\"] + 5\nm[\"n\"] = l[0]\nfor i = 0; i < 2; i += 1 {\n t = [0]\n t[0] = t[0] + 1\n add_key(inner, t[0])\n}\nadd_key(first, l[0])\nadd_key(mk, m[\"k\"])\nadd_key(mlen, len(m))\n",
+	// 8, 9, 10 texts without any token (shorter than every predecessor): whatever the loader
+	// says about them, it says the same after any history
+	"",
+	"# todo\n",
+	"  \n\n",
+	// 11 a syntax error right at the start, another at the very end of a short text
+	") x\n",
+	"a = (\n",
 }
 
 // vc15Point: the input point; `a` is any int64, `f` any non-NaN float64.
@@ -182,6 +190,14 @@ func vc15SameResult(tag string, a, b *vc15Result) {
 		pa, oka := a.loadErr.(*errchain.PlError)
 		pb, okb := b.loadErr.(*errchain.PlError)
 		verifnd.Assert(oka && okb && vc15SamePlErr(pa, pb), tag+":same-load-error")
+		// C05: whatever ran before, a load error names a line and column inside the source
+		if okb && pb != nil {
+			okPos := len(pb.PosChain) >= 1
+			for _, q := range pb.PosChain {
+				okPos = verifnd.And(okPos, q.Ln >= 1, q.Col >= 1, q.Pos >= 0)
+			}
+			verifnd.Assert(okPos, tag+":load-error-has-a-position-inside-the-source")
+		}
 		return
 	}
 	if a.runErr != nil {
